@@ -341,18 +341,25 @@ func runC04(c *kit.Ctx) {
 	{
 		regP, rcP := paramOfType(hre, "/hrpc.RegionInfo", 0), paramOfType(hre, "/hrpc.RegionClient", 0)
 		nsre, se := p.Named("region", "NotServingRegionError"), p.Named("region", "ServerError")
-		okN, okS := false, false
-		for _, call := range kit.Calls(hre, hrpcRI+"MarkUnavailable") {
-			if _, ok := typeAssertEdge(call.Block(), nsre); ok && call.Common().Value == ssa.Value(regP) {
-				okN = true
+		adminF := p.Field("", "client", "adminRegionInfo")
+		e1, f1 := afterClassAlways(hre, nsre, func(x ssa.Instruction) bool {
+			call, ok := x.(*ssa.Call)
+			return ok && kit.CalleeName(call) == hrpcRI+"MarkUnavailable" && call.Call.Value == ssa.Value(regP)
+		}, nil)
+		okN := f1 && e1 == nil
+		e2, f2 := afterClassAlways(hre, se, func(x ssa.Instruction) bool {
+			call, ok := x.(*ssa.Call)
+			return ok && kit.CalleeName(call) == kit.M("", "*client", "clientDown") && call.Call.Args[1] == ssa.Value(rcP) && call.Call.Args[2] == ssa.Value(regP)
+		}, func(from, to *ssa.BasicBlock) bool {
+			// the master pseudo-region has no connection cache entry: it is only marked
+			for _, f := range kit.EdgeFacts(from, to) {
+				if cmp, ok := kit.CanonCmp(f.Cond, f.Pol); ok && cmp.Op == token.EQL && adminF != nil && (isLoadOfField(cmp.X, adminF) || isLoadOfField(cmp.Y, adminF)) {
+					return true
+				}
 			}
-		}
-		for _, call := range kit.Calls(hre, kit.M("", "*client", "clientDown")) {
-			a := call.Common().Args
-			if _, ok := typeAssertEdge(call.Block(), se); ok && a[1] == ssa.Value(rcP) && a[2] == ssa.Value(regP) {
-				okS = true
-			}
-		}
+			return false
+		})
+		okS := f2 && e2 == nil
 		c.Check(okN, hre, "nsre-marks-region", hre.Pos(), "NotServingRegionError marks exactly the failed region", "NotServingRegionError no longer marks the failed region unavailable")
 		c.Check(okS, hre, "servererror-takes-connection-down", hre.Pos(), "ServerError calls clientDown(rc, reg)", "ServerError no longer takes the connection (and all its regions) down")
 	}
